@@ -51,7 +51,8 @@ Definition C13_getter_statement : Prop :=
    and is stored after the whole snapshot; getters return the stored value; a getter times out
    only while no value exists. *)
 Record mtask := mkMT { mt_id : nat; mt_name : nat; mt_cur : Z; mt_rest : list sub; mt_pending : option (option Z); mt_done : bool }.
-Record mstate := mkMS { ms_subs : list (nat * list sub); ms_data : list (nat * Z); ms_tasks : list mtask }.
+Record mstate := mkMS { ms_subs : list (nat * list sub); ms_data : list (nat * Z); ms_tasks : list mtask;
+                        ms_waiting : list (nat * nat); ms_owed : list (nat * nat) }.  (* (waiter, name) *)
 
 Fixpoint subs_eqb (a b : list sub) : bool :=
   match a, b with [], [] => true | x :: a', y :: b' => sub_eqb x y && subs_eqb a' b' | _, _ => false end.
@@ -77,15 +78,15 @@ Definition put_mt (t : mtask) (l : list mtask) : list mtask := t :: filter (fun 
 
 Definition mstep (sc : script) (m : mstate) (e : lev) : option mstate :=
   match e with
-  | LSub n s => Some (mkMS (set_subs n (get_subs n (ms_subs m) ++ [s]) (ms_subs m)) (ms_data m) (ms_tasks m))
+  | LSub n s => Some (mkMS (set_subs n (get_subs n (ms_subs m) ++ [s]) (ms_subs m)) (ms_data m) (ms_tasks m) (ms_waiting m) (ms_owed m))
   | LUnsub n s found =>
     let cur := get_subs n (ms_subs m) in
     if Bool.eqb found (mem_sub s cur)
-    then Some (mkMS (if found then set_subs n (remove_first s cur) (ms_subs m) else ms_subs m) (ms_data m) (ms_tasks m))
+    then Some (mkMS (if found then set_subs n (remove_first s cur) (ms_subs m) else ms_subs m) (ms_data m) (ms_tasks m) (ms_waiting m) (ms_owed m))
     else None
   | LSpawn tid n x snap =>
     if subs_eqb snap (get_subs n (ms_subs m)) && match find_mt tid (ms_tasks m) with None => true | Some _ => false end
-    then Some (mkMS (ms_subs m) (ms_data m) (put_mt (mkMT tid n x snap None false) (ms_tasks m)))
+    then Some (mkMS (ms_subs m) (ms_data m) (put_mt (mkMT tid n x snap None false) (ms_tasks m)) (ms_waiting m) (ms_owed m))
     else None
   | LCalled tid s x =>
     match find_mt tid (ms_tasks m) with
@@ -98,7 +99,8 @@ Definition mstep (sc : script) (m : mstate) (e : lev) : option mstate :=
         if (x =? cur)%Z && match s with Once _ _ => mem_sub s current | Plain _ => true end
         then Some (mkMS (match s with Once _ _ => set_subs (mt_name t) (remove_first s current) (ms_subs m) | Plain _ => ms_subs m end)
                         (ms_data m)
-                        (put_mt (mkMT tid (mt_name t) cur rest (Some (snd (sc (sub_cb s)))) false) (ms_tasks m)))
+                        (put_mt (mkMT tid (mt_name t) cur rest (Some (snd (sc (sub_cb s)))) false) (ms_tasks m))
+                        (ms_waiting m) (ms_owed m))
         else None
       | None => None
       end
@@ -109,19 +111,44 @@ Definition mstep (sc : script) (m : mstate) (e : lev) : option mstate :=
     | Some t =>
       if negb (mt_done t) && Nat.eqb n (mt_name t) && (x =? mt_value t)%Z &&
          all_skippable (get_subs n (ms_subs m)) (mt_rest t)
-      then Some (mkMS (ms_subs m) (set_data n x (ms_data m)) (put_mt (mkMT tid n x [] None true) (ms_tasks m)))
+      then Some (mkMS (ms_subs m) (set_data n x (ms_data m)) (put_mt (mkMT tid n x [] None true) (ms_tasks m))
+                      (filter (fun p => negb (Nat.eqb (snd p) n)) (ms_waiting m))
+                      (ms_owed m ++ filter (fun p => Nat.eqb (snd p) n) (ms_waiting m)))   (* every waiter of n is owed the value *)
       else None
     | None => None
     end
-  | LGot _ n x => match get_data n (ms_data m) with Some y => if (x =? y)%Z then Some m else None | None => None end
-  | LTimeout _ n => match get_data n (ms_data m) with Some _ => None | None => Some m end
+  | LGot w n x =>
+    match get_data n (ms_data m) with
+    | Some y => if (x =? y)%Z
+                then Some (mkMS (ms_subs m) (ms_data m) (ms_tasks m) (ms_waiting m)
+                                (filter (fun p => negb (Nat.eqb (fst p) w)) (ms_owed m)))
+                else None
+    | None => None
+    end
+  | LTimeout w n =>
+    match get_data n (ms_data m) with
+    | Some _ => None
+    | None => Some (mkMS (ms_subs m) (ms_data m) (ms_tasks m) (filter (fun p => negb (Nat.eqb (fst p) w)) (ms_waiting m)) (ms_owed m))
+    end
+  | LWait w n =>
+    match get_data n (ms_data m) with
+    | Some _ => None      (* a getter returns immediately once a value exists *)
+    | None => Some (mkMS (ms_subs m) (ms_data m) (ms_tasks m) (ms_waiting m ++ [(w, n)]) (ms_owed m))
+    end
+  end.
+
+(* waiters released by a store must all return before anything else happens *)
+Definition owed_ok (m : mstate) (e : lev) : bool :=
+  match ms_owed m with
+  | [] => true
+  | _ => match e with LGot w _ _ => existsb (fun p => Nat.eqb (fst p) w) (ms_owed m) | _ => false end
   end.
 
 Fixpoint mrun (sc : script) (m : mstate) (evs : list lev) : bool :=
   match evs with
-  | [] => true
-  | e :: r => match mstep sc m e with Some m' => mrun sc m' r | None => false end
+  | [] => match ms_owed m with [] => true | _ => false end
+  | e :: r => if owed_ok m e then match mstep sc m e with Some m' => mrun sc m' r | None => false end else false
   end.
 
 (* chronological log *)
-Definition P13 (sc : script) (evs : list lev) : bool := mrun sc (mkMS [] [] []) evs.
+Definition P13 (sc : script) (evs : list lev) : bool := mrun sc (mkMS [] [] [] [] []) evs.
